@@ -4,7 +4,7 @@ import random
 import re
 
 from .runner import run_driver, split_blocks
-from .solverworld import run_script, loss_formula, metric_formula
+from .solverworld import run_script, loss_formula, metric_formula, addl_formula, grad_formula
 
 KINDS = ['1d', '2d', 'spherical', 'generic', 'bundle']
 
@@ -16,8 +16,11 @@ def gen_script(rng, tier):
     n_valid = rng.choice([0, 0, 1, 2, 3])
     n_metrics = rng.randint(0, 2)
     lines = [f'init {theta0} {opt} {n_train} {n_valid} {n_metrics}']
+    with_addl = rng.random() < 0.5
+    if with_addl:
+        lines.append('addl 1')
     # plateaus / ties / adversarial trajectories: override some draws' losses (multiples of 12: exact means for 1..4 batches)
-    if rng.random() < 0.6:
+    if not with_addl and rng.random() < 0.75:
         train = n_valid == 0
         vals = rng.choice([[60, 24, 24, 96, 24, 12, 12, 120], [12, 12, 12, 12], [120, 108, 96, 84, 72], [24, 120, 24, 0, 0, 36]])
         per = n_train if train else n_valid
@@ -134,8 +137,10 @@ class Campaign:
                     final = parse_dump(l[2:])
                 elif l.startswith('LOG'):
                     eps, rest = split_epochs(l)
-                    fits.append(dict(epochs=cur, final=final, events=eps, trailing=rest))
+                    fits.append(dict(epochs=cur, final=final, events=eps, trailing=rest, grads=None))
                     cur = []
+                elif l.startswith('GRADS') and fits:
+                    fits[-1]['grads'] = [int(x) for x in l.split(' ', 1)[1].strip('[]').split(',') if x]
             yield lines, kw, fits, int(lines[0].split()[1]), run
 
     def coverage(self):
@@ -157,4 +162,5 @@ def loss_of(lines):
         if l.startswith('override'):
             p = l.split()
             ov[(p[1] == '1', int(p[2]))] = int(p[3])
-    return lambda lid, th, tr, idx: ov.get((tr, idx), loss_formula(lid, th, tr, idx))
+    addl = any(l.strip() == 'addl 1' for l in lines)
+    return lambda lid, th, tr, idx: ov.get((tr, idx), loss_formula(lid, th, tr, idx)) + (addl_formula(th, tr, idx) if addl else 0)
